@@ -25,6 +25,7 @@ import (
 	"github.com/ory/fosite"
 	"github.com/ory/fosite/compose"
 	"github.com/ory/fosite/handler/openid"
+	"github.com/ory/fosite/handler/rfc8628"
 	"github.com/ory/fosite/storage"
 	"github.com/ory/fosite/token/jwt"
 	"github.com/ory/fosite/verifhook"
@@ -213,6 +214,7 @@ type World struct {
 	Names   *Namer
 	Secrets map[string]string // client id -> plaintext secret
 	IDKey   crypto.Signer
+	Dev     *rfc8628.DefaultDeviceStrategy
 }
 
 func (w *World) Now() time.Time          { return w.now }
@@ -377,6 +379,7 @@ func NewWorld(p Profile) *World {
 		compose.OAuth2PKCEFactory,
 		compose.PushedAuthorizeHandlerFactory,
 	)
+	w.Dev = compose.NewDeviceStrategy(cfg)
 	// default cast
 	w.AddClient("A", "secret-A", false)
 	w.AddClient("B", "secret-B", false)
@@ -418,3 +421,26 @@ func (w *World) StateKey() string {
 var _ io.Reader = (*DetReader)(nil)
 
 func sha512New() hash.Hash { return sha512.New() }
+
+// AcceptUserCode plays the resource owner at the verification URI: the integrator looks the
+// request up by user-code signature and records the decision (MemoryStore has no update
+// method; the stored request is shared by pointer).
+func (w *World) AcceptUserCode(userCode string, accept bool) bool {
+	sig, err := w.Dev.UserCodeSignature(context.Background(), userCode)
+	if err != nil {
+		return false
+	}
+	req, ok := w.Mem.DeviceAuths[sig]
+	if !ok {
+		return false
+	}
+	if accept {
+		req.SetUserCodeState(fosite.UserCodeAccepted)
+		if s, ok := req.GetSession().(*Sess); ok {
+			s.SetSubject("device-user")
+		}
+	} else {
+		req.SetUserCodeState(fosite.UserCodeRejected)
+	}
+	return true
+}
